@@ -578,6 +578,21 @@ pub fn run(ctx: &Ctx) {
         v
     }, check_edge_point);
 
+    ctx.listed("near_curve_points", "points off the curve but on a neighbouring equation with one constant changed (a+-1, a+2, a=0, a=+3, 2a, b+-1, b=0, -b), abscissas at representation boundaries incl. those where the Montgomery image of x, x^2 or x^3 is next to 0 or p: both validity predicates must say no, in affine form and two Jacobian representations", || (0..near_curve_points().len()).collect::<Vec<usize>>(), |i: &usize| {
+        let pr = r2::params();
+        let (label, x, y) = &near_curve_points()[*i];
+        let bad = r2::pt(x, y);
+        for lambda in [BigUint::one(), BigUint::from(2u32), from_be(&expand_bytes(*i as u64 ^ 0x2ea1, 32)) % (pr.p - 2u32) + 2u32] {
+            let bl = lib_point(&bad, &lambda);
+            let v = catch(|| bl.is_valid()).map_err(|e| Fail { key: "entry=Point::is_valid outcome=panic".into(), detail: e })?;
+            ensure!(!v, "entry=Point::is_valid outcome=true-off-curve input=near-curve", "{} ({:x}, {:x}) with Z = {:x}", label, x, y, lambda);
+        }
+        let ba = lib_point(&bad, &BigUint::one());
+        let v = catch(|| ba.is_valid_affine_point()).map_err(|e| Fail { key: "entry=Point::is_valid_affine_point outcome=panic".into(), detail: e })?;
+        ensure!(!v, "entry=Point::is_valid_affine_point outcome=true-off-curve input=near-curve", "{} ({:x}, {:x})", label, x, y);
+        pass(true, "near-curve")
+    });
+
     ctx.exhaustive("scalar_mul_nibbles", "every nibble value 1..15 at every of the 64 window positions, on an affine and a Jacobian point", || {
         let mut v = Vec::new();
         for pos in 0..64u32 {
